@@ -1265,7 +1265,7 @@ func main() {
 			h.replayFile(f, false)
 		}
 	}
-	total := o.Count(1300, 60000)
+	total := o.Count(1300, 30000)
 	for c := 0; c < total; c++ {
 		switch k := h.r.Pick(10); {
 		case k < 2:
